@@ -19,19 +19,28 @@ chk.assumptions = [
 ]
 THOROUGH = chk.tier == "thorough"
 WORKERS = 8
+LEGS = os.environ.get("VERIF_C07_LEGS", "ab")  # debugging / mutant attribution only: run one leg
 
 # constructs left to the fixed probes while the corresponding finding is open ("probe + avoid")
 AVOID = [w for w, fid in (("tags", "C07-structtag"), ("targs", "C07-typearg-rendering"), ("emb", "C07-embedded-name"),
                           ("mixed", "C07-iface-mixed-pkgs"), ("genclosure", "C07-generic-local-closure"),
-                          ("unexpdup", "C07-unexported-method-symbol")) if chk.is_open(fid)]
+                          ("unexpdup", "C07-unexported-method-symbol"))
+         if chk.is_open(fid) and fid not in os.environ.get("VERIF_C07_ASSUME_FIXED", "").split(",")]
+# VERIF_C07_ASSUME_FIXED (validation of a proposed fix in a scratch worktree only): generate the constructs of these
+# findings again although findings/C07.json still lists them as open.
 chk.cov["avoided_constructs"] = AVOID
 
 # ---------------------------------------------------------------- leg (a)
 inj = {"ssa/abi/zz_verif_c07_test.go": os.path.join(core.V, "inpkg", "c07_identity_test.go")}
 env = {"VERIF_C07_AVOID": ",".join(AVOID)}
 for rx, label in (("^TestVerifC07Probes$", "a_probes"), ("^TestVerifC07Identity$", "a_identity")):
+    if "a" not in LEGS:
+        break
     rc, out, rep, races, _ = inpkg.run_inpkg(chk, inj, "./ssa/abi", rx, extra_env=env)
     inpkg.absorb(chk, rep, out, rc, label)
+if "b" not in LEGS:
+    chk.cov["legs"] = LEGS
+    chk.finish(floor_eval=20000, floor_distinct=200)
 
 # ---------------------------------------------------------------- leg (b)
 llgo = core.build_llgo(chk.work)
@@ -327,4 +336,6 @@ if stats["invalid_generated"] > max(1, ngen // 50) or (not THOROUGH and stats["i
     core.broken("C07: %d of %d generated programs are rejected by / misbehave under the reference toolchain" % (stats["invalid_generated"], ngen))
 if chk.inconclusive > ngen // 4:
     core.broken("C07: %d of %d programs inconclusive" % (chk.inconclusive, ngen))
+if LEGS != "ab":
+    chk.cov["legs"] = LEGS
 chk.finish(floor_eval=30000, floor_distinct=200)
